@@ -21,10 +21,11 @@ static C03: checks::book::C03 = checks::book::C03;
 static C04: checks::book::C04 = checks::book::C04;
 static C06: checks::c06::C06 = checks::c06::C06;
 static C11: checks::c11::C11 = checks::c11::C11;
+static C12: checks::c12::C12 = checks::c12::C12;
 static C13: checks::c13::C13 = checks::c13::C13;
 
 fn registry() -> Vec<&'static dyn DynCheck> {
-    vec![&C01, &C02, &C03, &C04, &C06, &C11, &C13]
+    vec![&C01, &C02, &C03, &C04, &C06, &C11, &C12, &C13]
 }
 
 fn find(id: &str) -> &'static dyn DynCheck {
